@@ -35,7 +35,7 @@ def main():
         for d in demos:
             shutil.copy(d, os.path.join(scratch, "tests"))
         names = [os.path.splitext(os.path.basename(d))[0] for d in demos]
-        tflags = " ".join("--test %s" % n for n in names)
+        tflags = " ".join("--test %s" % n for n in names) + " " + os.environ.get("SEED_DEMO_FLAGS", "")
         env = dict(os.environ, CARGO_NET_OFFLINE="true")
         rc0, o0 = sh("cargo test --offline %s 2>&1 | grep -E '^test result|FAILED|panicked' | head -8" % tflags, cwd=scratch, env=env)
         meta["ran"].append({"cmd": "demo without patch", "out": o0.strip()})
